@@ -138,13 +138,22 @@ def gen(groups=None, repo=None):
 def load(name):
     return json.load(open(os.path.join(OUT_J, name + '.json')))
 
-if __name__ == '__main__':
-    # other generator modules register additional groups
+def load_groups():
     here = os.path.dirname(os.path.abspath(__file__))
-    sys.path.insert(0, here)
+    if here not in sys.path: sys.path.insert(0, here)
     for f in sorted(os.listdir(here)):
         if f.startswith('grp_') and f.endswith('.py'):
             __import__(f[:-3])
-    errs = gen(sys.argv[1:] or None)
+
+def main(argv):
+    load_groups()
+    errs = gen(argv or None)
     for e in errs: print('GEN-ERROR', e)
-    sys.exit(1 if errs else 0)
+    return 1 if errs else 0
+
+if __name__ == '__main__':
+    # run through the importable module so that grp_*.py files (which `import gen`) register into the same GROUPS
+    here = os.path.dirname(os.path.abspath(__file__))
+    sys.path.insert(0, here)
+    import gen as _g
+    sys.exit(_g.main(sys.argv[1:]))
